@@ -270,6 +270,8 @@ def build_program(spec, seed=0):
         shape = (1, spec.get('T', spec.get('K', 2) + 1))
     elif fam == 'R3':
         shape = (1, spec.get('T', 2))
+    elif fam == 'R4':
+        shape = (1, spec.get('T', 4))
     else:
         raise KeyError(fam)
     return m, shape
@@ -390,3 +392,75 @@ def copy_bn_stats(pit, exported):
                     mod.weight.copy_(src.weight[mask])
                     mod.bias.copy_(src.bias[mask])
     return exported
+
+
+class R4(nn.Module):
+    """a searchable layer invoked twice at different temporal resolutions (per-invocation metrics must use both shapes)"""
+
+    def __init__(self, C=2, K=2):
+        super().__init__()
+        self.inp = nn.Conv1d(1, C, 1)
+        self.pool = nn.AvgPool1d(2)
+        self.pad = nn.ConstantPad1d((K - 1, 0), 0)
+        self.rep = nn.Conv1d(C, C, K)
+        self.out_a = nn.Conv1d(C, 2, 1)
+        self.out_b = nn.Conv1d(C, 2, 1)
+
+    def forward(self, x):
+        x = torch.relu(self.inp(x))
+        a = self.out_a(torch.relu(self.rep(self.pad(x))))
+        b = self.out_b(torch.relu(self.rep(self.pad(self.pool(x)))))
+        return a, b
+
+
+FAMILIES['R4'] = R4
+
+
+def realize(module):
+    """replace every concrete-valued SymTensor parameter/buffer of a module tree by a plain torch tensor (in place)"""
+    for m in module.modules():
+        for d, is_param in ((m._parameters, True), (m._buffers, False)):
+            for k, v in list(d.items()):
+                if isinstance(v, SymTensor):
+                    t = st.core.demote(v)
+                    d[k] = nn.Parameter(t, requires_grad=False) if is_param else t
+    return module
+
+
+def count_params(model, names=None):
+    """actual number of weights and biases of conv / linear layers"""
+    tot = 0
+    for n, m in model.named_modules():
+        if isinstance(m, (nn.Conv1d, nn.Conv2d, nn.Linear)) and (names is None or n in names):
+            tot += m.weight.numel() + (m.bias.numel() if m.bias is not None else 0)
+    return tot
+
+
+def count_ops(model, x, bias=True, names=None):
+    """MAC count per invocation measured with forward hooks: out positions x cout x (cin/groups x k + bias)"""
+    tot = [0]
+    hooks = []
+
+    def hook(name):
+        def h(m, inp, out):
+            if names is not None and name not in names:
+                return
+            if isinstance(m, nn.Linear):
+                tot[0] += m.out_features * (m.in_features + (1 if (bias and m.bias is not None) else 0))
+            else:
+                k = 1
+                for ki in m.kernel_size:
+                    k *= ki
+                pos = 1
+                for s in out.shape[2:]:
+                    pos *= s
+                tot[0] += m.out_channels * ((m.in_channels // m.groups) * k + (1 if (bias and m.bias is not None) else 0)) * pos
+        return h
+    for n, m in model.named_modules():
+        if isinstance(m, (nn.Conv1d, nn.Conv2d, nn.Linear)):
+            hooks.append(m.register_forward_hook(hook(n)))
+    with torch.no_grad():
+        model(x)
+    for h in hooks:
+        h.remove()
+    return tot[0]
